@@ -78,6 +78,12 @@ class Report:
             if len(self.samples) < 60:
                 self.samples.append(s)
 
+    def bulk_ok(self, rule, n):
+        """n further discharged instances of a rule (already summarised by one sample)."""
+        self.obligations += n
+        self.discharged += n
+        self.instances[rule] = self.instances.get(rule, 0) + n
+
     def bad(self, rule, function, construct, message, extra=None, line=None):
         self.obligations += 1
         self.instances[rule] = self.instances.get(rule, 0) + 1
